@@ -113,7 +113,10 @@ type Chain struct {
 	Name   string
 	ID     uint64
 	Router uint64
+	kind   byte
 	posa   *posaChain
+	// ripple source: per destination the lock proxy and asset the handler fills in
+	proxy, asset map[uint64][]byte
 }
 
 type importIn struct {
@@ -128,6 +131,9 @@ type Config struct {
 	Ids   []string `json:"ids"`
 	Vars  []int    `json:"vars"`
 	Gated []string `json:"gated"`
+	// Kinds overrides the adapter of a chain name (default: first letter): v vote, r ripple, b bsc, y bytom, g hsc, h heco,
+	// e eth (source with a synced light client), t eth-router destination without light client.
+	Kinds map[string]string `json:"kinds,omitempty"`
 }
 
 type Universe struct {
@@ -142,22 +148,46 @@ type Universe struct {
 	ids       map[string][]byte
 	idByHex   map[string]string
 	msgs      map[string]*Msg   // "s|i|t|v"
-	msgByHex  map[string]string // hex(msg bytes) -> "s|i|t|v"
+	released  map[string]*Msg   // ripple: the message as the handler releases it
+	msgByHex  map[string]string // hex(released msg bytes) -> "s|i|t|v"
 	imports   map[string]*importIn
 	base      *leveldbstore.LevelDBStore // state after setup, shared read-only by all runs
 	salt      uint32
 }
 
+// outMsg is the message an accepted import of k releases (the verified message; ripple deposits are completed by the handler).
+func (u *Universe) outMsg(k string) *Msg {
+	if m, ok := u.released[k]; ok {
+		return m
+	}
+	return u.msgs[k]
+}
+
 func mkey(s, i, t string, v int) string { return fmt.Sprintf("%s|%s|%s|%d", s, i, t, v) }
 
-func routerOf(name string) uint64 {
-	switch name[0] {
+func (cfg *Config) kind(name string) byte {
+	if k, ok := cfg.Kinds[name]; ok && k != "" {
+		return k[0]
+	}
+	return name[0]
+}
+
+func routerOf(name string, kind byte) uint64 {
+	switch kind {
+	case 'r':
+		return utils.RIPPLE_ROUTER
+	case 'e':
+		return utils.ETH_ROUTER
 	case 'v':
 		return utils.VOTE_ROUTER
 	case 'b':
 		return utils.BSC_ROUTER
 	case 'g':
 		return utils.HSC_ROUTER
+	case 'y':
+		return utils.BYTOM_ROUTER
+	case 'h':
+		return utils.HECO_ROUTER
 	case 't':
 		return utils.ETH_ROUTER
 	}
@@ -190,7 +220,7 @@ func newUniverse(cfg Config, seed uint64) *Universe {
 	config.DefConfig.Common.EnableEventLog = true
 	u := &Universe{cfg: cfg, rng: vio.NewRNG(seed*7919 + 13), chains: map[string]*Chain{}, chainByID: map[uint64]string{},
 		ids: map[string][]byte{}, idByHex: map[string]string{}, msgs: map[string]*Msg{}, msgByHex: map[string]string{},
-		imports: map[string]*importIn{}}
+		imports: map[string]*importIn{}, released: map[string]*Msg{}}
 	rng := u.rng
 	u.salt = uint32(rng.U64())
 	u.val, u.owner, u.outsider = account.NewAccount(""), account.NewAccount(""), account.NewAccount("")
@@ -220,7 +250,7 @@ func newUniverse(cfg Config, seed uint64) *Universe {
 				break
 			}
 		}
-		c := &Chain{Name: n, ID: id, Router: routerOf(n)}
+		c := &Chain{Name: n, ID: id, Router: routerOf(n, cfg.kind(n)), kind: cfg.kind(n)}
 		u.chains[n] = c
 		u.chainByID[id] = n
 	}
@@ -252,7 +282,31 @@ func newUniverse(cfg Config, seed uint64) *Universe {
 						ToContract: rng.Bytes(20), Method: []string{"unlock", "", "m"}[rng.Intn(3)], Args: rng.Bytes(alen)}
 					k := mkey(s, i, t, v)
 					u.msgs[k] = m
-					u.msgByHex[hex.EncodeToString(m.bytes())] = k
+					if sc := u.chains[s]; sc.kind == 'r' {
+						// ripple deposits: Args = dst address, amount; the handler fills in the lock proxy and the asset
+						if sc.proxy == nil {
+							sc.proxy, sc.asset = map[uint64][]byte{}, map[uint64][]byte{}
+						}
+						if sc.proxy[m.To] == nil {
+							sc.proxy[m.To], sc.asset[m.To] = rng.Bytes(20), rng.Bytes(20)
+						}
+						dst, amount := rng.Bytes(20), 1000000+uint64(rng.Intn(1000000))
+						b := new(bytes.Buffer)
+						putVarBytes(b, dst)
+						b.Write(u64le(amount))
+						m.Args = b.Bytes()
+						out := *m
+						out.ToContract = sc.proxy[m.To]
+						b = new(bytes.Buffer)
+						putVarBytes(b, sc.asset[m.To])
+						putVarBytes(b, dst)
+						var amt [32]byte
+						copy(amt[:], u64le(amount))
+						b.Write(amt[:])
+						out.Args = b.Bytes()
+						u.released[k] = &out
+					}
+					u.msgByHex[hex.EncodeToString(u.outMsg(k).bytes())] = k
 				}
 			}
 		}
@@ -260,12 +314,9 @@ func newUniverse(cfg Config, seed uint64) *Universe {
 	// PoSA chains: one block per variant, then one empty block
 	for _, s := range cfg.Src {
 		c := u.chains[s]
-		if c.Router != utils.BSC_ROUTER && c.Router != utils.HSC_ROUTER {
+		fl := map[byte]string{'b': "bsc", 'g': "hsc", 'y': "bytom", 'h': "heco", 'e': "eth"}[c.kind]
+		if fl == "" {
 			continue
-		}
-		fl := "bsc"
-		if c.Router == utils.HSC_ROUTER {
-			fl = "hsc"
 		}
 		c.posa = newPosaChain(fl, int64(50+rng.Intn(200)), 3, rng)
 		c.posa.buildGenesis(uint64(200 + 3*rng.Intn(50)))
@@ -357,6 +408,12 @@ func (u *Universe) setup() {
 	for _, n := range u.names {
 		if err := r.register(n); err != nil {
 			vio.Fatal("setup: register %s: %v", n, err)
+		}
+	}
+	for _, n := range u.names {
+		if c := u.chains[n]; c.proxy != nil {
+			scm.PutAssetBind(sb.Service(nativekit.Tx(), nil), c.ID, &scm.AssetBind{AssetMap: c.asset, LockProxyMap: c.proxy})
+			sb.Cache.Commit()
 		}
 	}
 	for _, n := range u.names {
@@ -597,7 +654,7 @@ func (r *Run) project() *Proj {
 
 // expected request record / leaf of an accepted import step (from the model's term MV(tx, src, id, to, var)).
 func (u *Universe) expectReq(st *Step) (ReqRec, string) {
-	m := u.msgs[mkey(st.S, st.I, st.T, st.V)]
+	m := u.outMsg(mkey(st.S, st.I, st.T, st.V))
 	txh := u.txHash(uint32(st.Tx))
 	mv := encMV(txh, u.chains[st.S].ID, m.bytes())
 	key := append(append([]byte(scom.REQUEST), u64le(u.chains[st.T].ID)...), txh...)
